@@ -589,6 +589,9 @@ class Check(PropertyCheck):
         import bellows.thread as bt
         problems = []
 
+        async def _owner_tid():
+            return threading.get_ident()
+
         async def main():
             elt = bt.EventLoopThread()
             await elt.start()
@@ -610,6 +613,28 @@ class Check(PropertyCheck):
                     problems.append(f"the attribute was re-bound to a non-callable value and was not refused ({fn!r})")
                 except TypeError:
                     pass
+                # names with a leading underscore are attributes like any other
+                owner_tid = await elt.run_coroutine_threadsafe(_owner_tid())
+                tgt._state = 5
+                seen = []
+                tgt._plain = lambda tag: seen.append(("plain", tag, threading.get_ident()))
+
+                async def _coro(tag):
+                    seen.append(("coro", tag, threading.get_ident()))
+                    return 77
+                tgt._coro = _coro
+                try:
+                    v = proxy._state
+                    problems.append(f"the non-callable attribute _state was not refused ({v!r})")
+                except TypeError:
+                    pass
+                r = proxy._plain(3)
+                rc = await asyncio.wait_for(proxy._coro(4), 2)
+                await elt.run_coroutine_threadsafe(asyncio.sleep(0.01))
+                if r is not None or rc != 77 or sorted(x[0] for x in seen) != ["coro", "plain"] or any(x[2] != owner_tid for x in seen):
+                    problems.append(f"calls of underscore-named methods from another loop: returned {r!r} / {rc!r}, executed "
+                                    f"{[(x[0], 'owner' if x[2] == owner_tid else 'caller') for x in seen]}; they run on the owner's "
+                                    f"loop like any other call")
                 proxy.plain_none(7)
                 tgt.plain_none = "not callable any more"
                 try:
